@@ -488,8 +488,10 @@ class Gen:
                 cols.append(GCol(None, nm, c.ty, False, c.uniq))
         if r.random() < 0.5:
             ty = r.choice(["int", "float", "bool", "text"])
-            nm = self.new_name()
-            items.append([nm, self.expr(sc, ty)])
+            e = self.expr(sc, ty)
+            # sometimes a computed column without a name (it cannot be referred to afterwards)
+            nm = None if (e[0] not in ("col", "lit") and r.random() < self.p["unnamed"]) else self.new_name()
+            items.append([nm, e])
             cols.append(GCol(None, nm, ty))
         nsc = Scope(cols, 0)
         nsc.ordered = sc.ordered
@@ -556,7 +558,7 @@ class Gen:
         if r.random() < self.p["join_pipe"]:
             sub = Gen(r, dict(self.p, max_len=3))
             sub.fresh, sub.alias_n, sub.lets = self.fresh + 100, self.alias_n + 100, self.lets
-            pipe, ssc = sub.pipeline(r.randint(1, 3), must_know_frame=True)
+            pipe, ssc = sub.pipeline(r.randint(1, 3), must_know_frame=True, allow_unnamed=True)
             self.fresh, self.alias_n = sub.fresh - 100 + 100, sub.alias_n
             src, rcols, wild = {"k": "pipe", "pipe": pipe}, [c.clone(wild=False) for c in ssc.cols if c.name], False
             if not rcols:
@@ -754,7 +756,7 @@ class Gen:
         return [sel, {"t": "append", "src": {"k": "pipe", "pipe": bottom}}], nsc
 
     # -- pipelines
-    def pipeline(self, n, must_know_frame=False, forced=None):
+    def pipeline(self, n, must_know_frame=False, forced=None, allow_unnamed=False):
         """forced: list of transform kinds to generate in this order (instead of weighted choice);
         the pipeline position after each forced kind is recorded in self.forced_at."""
         r = self.rng
@@ -795,7 +797,7 @@ class Gen:
             if sc.nwild == 0 and None not in names and len(set(names)) == len(names):
                 self.cuts.append({"at": len(pipe), "quals": sorted({c.qual for c in sc.cols if c.qual}),
                                   "cols": [[c.name, c.ty] for c in sc.cols]})
-        if must_know_frame and sc.nwild > 0 or (must_know_frame and any(c.name is None for c in sc.cols)):
+        if must_know_frame and sc.nwild > 0 or (must_know_frame and not allow_unnamed and any(c.name is None for c in sc.cols)):
             res = self.t_select(sc)
             if res:
                 pipe.append(res[0])
@@ -819,7 +821,7 @@ class Gen:
 DEFAULT_PROFILE = {
     "max_depth": 2, "max_len": 7, "alias": 0.5, "bare_ref": 0.35, "use_let": 0.25, "use_lit": 0.08,
     "join_pipe": 0.2, "outer_join": 0.4, "group_agg": 0.6, "group_take": 0.25, "window_clause": 0.5,
-    "n_lets": [0.5, 0.3, 0.15, 0.05],
+    "n_lets": [0.5, 0.3, 0.15, 0.05], "unnamed": 0.15,
     "weights": {"select": 2.0, "derive": 2.5, "filter": 2.5, "sort": 2.0, "take": 1.5, "join": 1.5,
                 "aggregate": 0.7, "group": 1.5, "append": 0.4, "window": 0.0},
 }
